@@ -206,7 +206,8 @@ META = {
                    "and exits in any order: while a rule's counter cache has not evicted, the cell of every value equals the number of live entries "
                    "admitted with it (cell_eq_live), admission is exactly live(v) < threshold(v) for every value that already has a cell "
                    "(admit_iff_*, check_verdict_iff under any check/commit interleaving), the cap live(v) <= threshold(v) in sequential histories with "
-                   "positive thresholds (capped_sequential), no eviction while at most ParamsMaxCapacity distinct values were seen "
+                   "positive thresholds (capped_sequential) and live(v) <= threshold(v) + P - 1 under any schedule with at most P goroutines inside "
+                   "api.Entry (capped_sched), no eviction while at most ParamsMaxCapacity distinct values were seen "
                    "(no_evict_of_few_values), cells return to zero, entries for other values / blocked entries / entries blocked by another slot leave a "
                    "value's cell untouched.  The model (LRU cells, first-touch shortcut, re-extraction at exit) is tied to core/hotspot + api.Entry "
                    "by running the same op files through the real packages and the compiled Lean driver and comparing every answer; the property "
